@@ -17,7 +17,7 @@ CFG = dict(
           "vm_compute, one case per field; free-running concurrent workloads (mux, mux+Stop/connection failure, by-reference "
           "channel transport, proxy with many peers + on-demand slow dials under a burst larger than the per-peer queue + "
           "stalled writers + failing dials + interceptor rejections + a two-proxy chain, demux with many keys, HTTP transport "
-          "with its cleaner) run under the race "
+          "with its cleaner, client and server over the WebSocket transport) run under the race "
           "detector on 1, 4 and 16 Ps with seeded yields at the instrumented points: a report with a goat frame is a failing "
           "input. NOT covered by the static table: locals captured by closures, slice/map element internals, protobuf messages "
           "shared by reference, everything inside dependencies, aliasing through pointers to fields; path-insensitive locking "
@@ -45,7 +45,7 @@ CFG = dict(
     rule="static: every access site of every field of the tracked structs (one case per field: rows = read/write, function, "
          "locks held on straight-line Lock/defer Unlock/Unlock paths, *Locked helpers inherit, class plain/atomic/init/confined/"
          "pub:<tag>/after:<tag>; no wildcard for after-sites); "
-         "dynamic: 7 workloads (mux, mux-stop, chan, proxy, demux, http, opts) x GOMAXPROCS {1,4,16} x 2 repetitions (thorough: 12 repetitions each) under -race with seeded yields; "
+         "dynamic: 8 workloads (mux, mux-stop, chan, proxy, demux, http, opts, ws = client and server over the WebSocket transport) x GOMAXPROCS {1,4,16} x 2 repetitions (thorough: 12 repetitions each) under -race with seeded yields; "
          "non-trivial = distinct description hash",
     assumptions=["tools/locksets and tools/locksets/justify.txt are trusted (the justifications are hand-written arguments)",
                  "a lock is named struct.field by the tool; the theorem's hypothesis (conforms) needs every access to a field of object o that names lock m to "
